@@ -349,6 +349,9 @@ func (r *Run) derefSV(env *SpecEnv, v SV) SV {
 func (r *Run) evalSel(env *SpecEnv, x ESel) SV {
 	base := r.eval(env, x.X)
 	if base.pkg != nil {
+		if g, ok := r.eng.ghosts[base.pkg.Path()+"::"+x.Sel]; ok {
+			return r.ghostSV(env, g)
+		}
 		o := base.pkg.Scope().Lookup(x.Sel)
 		if o == nil {
 			specFail("package %s has no member %s", base.pkg.Name(), x.Sel)
@@ -1100,6 +1103,11 @@ func (r *Run) havocModifies(env *SpecEnv, pre, st *State, m Expr, src string) {
 			return
 		}
 	case ESel:
+		if g := r.qualifiedGhost(penv, x); g != nil {
+			sv := r.ghostSV(penv, g)
+			st.heaps["ghost|"+g.PkgPath+"::"+g.Name] = r.havoc("gh_"+mangle(g.Name), sv.t.Sort)
+			return
+		}
 		// p.f.g : a field path inside the object p points to
 		loc := r.evalLoc(penv, x)
 		r.writeLoc(st, loc, r.havoc("hv", r.eng.u.sortOf(loc.typ)))
@@ -1185,4 +1193,24 @@ func (r *Run) emitAxiomsFor(pf *PureFunc) {
 		r.emit(fmt.Sprintf("(assert %s) ; axiom %s", sv.t.S, ax.Name))
 		r.axiomsUsed = append(r.axiomsUsed, ax.PkgPath+": "+ax.Name+": "+ax.Src)
 	}
+}
+
+
+// qualifiedGhost: pkg.ghostVar
+func (r *Run) qualifiedGhost(env *SpecEnv, x ESel) *GhostVar {
+	id, ok := x.X.(EIdent)
+	if !ok {
+		return nil
+	}
+	if _, bound := env.bound[id.Name]; bound {
+		return nil
+	}
+	if _, isVar := env.vars[id.Name]; isVar {
+		return nil
+	}
+	p := r.eng.importedPkg(env.pkg, id.Name)
+	if p == nil {
+		return nil
+	}
+	return r.eng.ghosts[p.Path()+"::"+x.Sel]
 }
